@@ -289,7 +289,12 @@ impl Interceptor for Sched {
             injected: false,
         });
         if let Some((fa, fv, fp, nth, kind)) = st.fault.clone() {
-            if fa == op.actor && fv == verb && fp == op.path {
+            // a leading '*' addresses the path by its ending (the band number is not known ahead)
+            let path_matches = match fp.strip_prefix('*') {
+                Some(suffix) => op.path.ends_with(suffix),
+                None => fp == op.path,
+            };
+            if fa == op.actor && fv == verb && path_matches {
                 let seen = st.fault_matches_seen;
                 st.fault_matches_seen += 1;
                 if seen == nth {
